@@ -69,8 +69,67 @@ macro_rules! quire_hist {
     }};
 }
 
+/// `<ty> poly <deg|3a|4a> x c0 c1 ...` : Polynom::polyN with coefficients highest degree first
+macro_rules! poly {
+    ($P:ty, $U:ty, $v:expr) => {{
+        let v: &[&str] = $v;
+        let x = <$P>::from_bits(hx(v[3]) as $U);
+        let c: Vec<$P> = v[4..].iter().map(|s| <$P>::from_bits(hx(s) as $U)).collect();
+        let r: $P = match v[2] {
+            "1" => { let a: [$P; 2] = c.as_slice().try_into().expect("coefficient count"); x.poly1(&a) }
+            "2" => { let a: [$P; 3] = c.as_slice().try_into().expect("coefficient count"); x.poly2(&a) }
+            "3" => { let a: [$P; 4] = c.as_slice().try_into().expect("coefficient count"); x.poly3(&a) }
+            "4" => { let a: [$P; 5] = c.as_slice().try_into().expect("coefficient count"); x.poly4(&a) }
+            "5" => { let a: [$P; 6] = c.as_slice().try_into().expect("coefficient count"); x.poly5(&a) }
+            "6" => { let a: [$P; 7] = c.as_slice().try_into().expect("coefficient count"); x.poly6(&a) }
+            "7" => { let a: [$P; 8] = c.as_slice().try_into().expect("coefficient count"); x.poly7(&a) }
+            "8" => { let a: [$P; 9] = c.as_slice().try_into().expect("coefficient count"); x.poly8(&a) }
+            "9" => { let a: [$P; 10] = c.as_slice().try_into().expect("coefficient count"); x.poly9(&a) }
+            "10" => { let a: [$P; 11] = c.as_slice().try_into().expect("coefficient count"); x.poly10(&a) }
+            "11" => { let a: [$P; 12] = c.as_slice().try_into().expect("coefficient count"); x.poly11(&a) }
+            "12" => { let a: [$P; 13] = c.as_slice().try_into().expect("coefficient count"); x.poly12(&a) }
+            "13" => { let a: [$P; 14] = c.as_slice().try_into().expect("coefficient count"); x.poly13(&a) }
+            "14" => { let a: [$P; 15] = c.as_slice().try_into().expect("coefficient count"); x.poly14(&a) }
+            "15" => { let a: [$P; 16] = c.as_slice().try_into().expect("coefficient count"); x.poly15(&a) }
+            "16" => { let a: [$P; 17] = c.as_slice().try_into().expect("coefficient count"); x.poly16(&a) }
+            "17" => { let a: [$P; 18] = c.as_slice().try_into().expect("coefficient count"); x.poly17(&a) }
+            "18" => { let a: [$P; 19] = c.as_slice().try_into().expect("coefficient count"); x.poly18(&a) }
+            "3a" => { let a: [$P; 4] = c.as_slice().try_into().expect("coefficient count"); x.poly3a(&a) }
+            "4a" => { let a: [$P; 5] = c.as_slice().try_into().expect("coefficient count"); x.poly4a(&a) }
+            d => panic!("bad degree {}", d),
+        };
+        format!("{:x}", r.to_bits())
+    }};
+}
+
+/// RNG that replays a fixed list of raw u32 outputs (cyclically)
+struct Replay { v: Vec<u32>, i: usize }
+impl rand::RngCore for Replay {
+    fn next_u32(&mut self) -> u32 { let x = self.v[self.i % self.v.len()]; self.i += 1; x }
+    fn next_u64(&mut self) -> u64 { let lo = self.next_u32() as u64; let hi = self.next_u32() as u64; (hi << 32) | lo }
+    fn fill_bytes(&mut self, dest: &mut [u8]) { for b in dest.iter_mut() { *b = self.next_u32() as u8; } }
+    fn try_fill_bytes(&mut self, dest: &mut [u8]) -> Result<(), rand::Error> { self.fill_bytes(dest); Ok(()) }
+}
+/// raw u32 that makes rand 0.8's `gen_range(lo..hi)` (widening-multiply sampling) return exactly `r`
+fn raw_for(r: u64, lo: u64, hi: u64) -> u32 {
+    let range = hi - lo;
+    ((((r - lo) << 32) + range - 1) / range) as u32
+}
+
 pub fn run(v: &[&str]) -> Option<String> {
+    use rand::{Rng, SeedableRng};
     match (v[0], v[1]) {
+        // sample through a seeded StdRng (what users do)
+        ("p8", "poly") => Some(poly!(P8E0, u8, v)),
+        ("p16", "poly") => Some(poly!(P16E1, u16, v)),
+        ("p32", "poly") => Some(poly!(P32E2, u32, v)),
+        ("p8", "sample_seed") => { let mut g = rand::rngs::StdRng::seed_from_u64(hx(v[2])); let p: P8E0 = g.gen(); Some(format!("{:x}", p.to_bits())) }
+        ("p16", "sample_seed") => { let mut g = rand::rngs::StdRng::seed_from_u64(hx(v[2])); let p: P16E1 = g.gen(); Some(format!("{:x}", p.to_bits())) }
+        ("p32", "sample_seed") => { let mut g = rand::rngs::StdRng::seed_from_u64(hx(v[2])); let p: P32E2 = g.gen(); Some(format!("{:x}", p.to_bits())) }
+        // sample with the generator steered so that gen_range returns the given value(s): ties the model's `rng_k` inputs to the code
+        ("p8", "sample_r") => { let mut g = Replay { v: vec![raw_for(hx(v[2]), 0, 0x40)], i: 0 }; let p: P8E0 = g.gen(); Some(format!("{:x}", p.to_bits())) }
+        ("p16", "sample_r") => { let mut g = Replay { v: vec![raw_for(hx(v[2]), 0, 0x4_0000)], i: 0 }; let p: P16E1 = g.gen(); Some(format!("{:x}", p.to_bits())) }
+        ("p32", "sample_r") => { let mut g = Replay { v: vec![raw_for(hx(v[2]), 0x4000_0000, 0x4800_0000), raw_for(hx(v[3]), 0, 4)], i: 0 }; let p: P32E2 = g.gen(); Some(format!("{:x}", p.to_bits())) }
         ("q8", "hist") => Some(quire_hist!(Q8E0, P8E0, u8, v, |q: &Q8E0| format!("{:08x}", q.to_bits()), |q: &Q8E0| Q8E0::from_bits(q.to_bits()))),
         ("q16", "hist") => Some(quire_hist!(Q16E1, P16E1, u16, v, |q: &Q16E1| format!("{:032x}", q.to_bits()), |q: &Q16E1| Q16E1::from_bits(q.to_bits()))),
         ("q32", "hist") => Some(quire_hist!(Q32E2, P32E2, u32, v,
